@@ -66,6 +66,21 @@ def check(i: int, args: tuple) -> bool:
     return gen.decode(got) == want and gen.decode(expr) == before
 
 
+def check_twice(i: int, args: tuple, other: str) -> bool:
+    """the result does not depend on earlier calls: the same expression made relative to the variable, then to another
+    name (and back), each time equals the oracle (no memo keyed on the expression only, no state between calls)."""
+    sh = SHAPES[i]
+    expr = gen.build(sh["expr"], args)
+    before = gen.decode(expr)
+    var = gen.build(sh["var"], args)
+    var2 = ast.Identifier(other, var.namespace)
+    for v in (var, var2, var):
+        got = expression_relative_to_identifier(v, expr)
+        if gen.decode(got) != ref_relative(before, gen.decode(v)):
+            return False
+    return gen.decode(expr) == before
+
+
 # ------------------------------------------------------------------ shapes
 def _shapes(tier: str, seed: int) -> List[dict]:
     NEW = gen.NEW
@@ -158,8 +173,13 @@ def main() -> int:
             pre += f" and x{j} != x0"
         items.append(Item(f"h{i}", params, pre, f"check({i}, ({', '.join(names)},))",
                           describe={"var": sh["var"], "expr": sh["expr"]}, family="relative"))
+        if i % (4 if run.tier == "quick" else 1) == 0 and not _lambda_vars(sh["expr"]):
+            items.append(Item(f"t{i}", params + ", other: str", pre + " and len(other) == 1",
+                              f"check_twice({i}, ({', '.join(names)},), other)",
+                              describe={"var": sh["var"], "expr": sh["expr"], "sequence": "var, other, var"},
+                              family="call-sequence"))
         run.sample({"var": sh["var"], "expr": sh["expr"]}, cap=5)
-    header = "from verif.props.c17 import check\n"
+    header = "from verif.props.c17 import check, check_twice\n"
     run_items(run, header, items, per_condition_timeout=40 if run.tier == "quick" else 120,
               progress=bool(os.environ.get("VERIF_PROGRESS")))
     return run.finish()
